@@ -1,7 +1,9 @@
 package c12
 
 import (
+	"bytes"
 	"crypto/sha1"
+	"crypto/tls"
 	"encoding/base64"
 	"fmt"
 	"io"
@@ -414,8 +416,14 @@ func TestC12TCPEndToEnd(t *testing.T) {
 				return
 			}
 			atomic.AddInt64(&accepts, 1)
-			c.Write([]byte("hello-from-upstream"))
-			c.Close()
+			go func(c net.Conn) {
+				// drain what the client sent (e.g. a ClientHello) until it goes away: closing
+				// with unread data would reset the connection and could destroy the reply
+				defer c.Close()
+				c.Write([]byte("hello-from-upstream"))
+				c.SetReadDeadline(time.Now().Add(3 * time.Second))
+				io.Copy(io.Discard, c)
+			}(c)
 		}
 	}()
 	hx.Check(t, hx.Scale(400, 3000), func(t *rapid.T) {
@@ -448,13 +456,16 @@ func TestC12TCPEndToEnd(t *testing.T) {
 		if err != nil {
 			t.Skip("no listener on " + laddr)
 		}
-		handler := rapid.SampledFrom([]string{"tcp", "dynamic"}).Draw(t, "handler")
+		handler := rapid.SampledFrom([]string{"tcp", "dynamic", "sni"}).Draw(t, "handler")
 		var h tcp.Handler
 		lookup := func(string) *route.Target { return tg }
-		if handler == "tcp" {
+		switch handler {
+		case "tcp":
 			h = &tcp.Proxy{Lookup: lookup, DialTimeout: time.Second}
-		} else {
+		case "dynamic":
 			h = &tcp.DynamicProxy{Lookup: lookup, DialTimeout: time.Second}
+		default:
+			h = &tcp.SNIProxy{Lookup: lookup, DialTimeout: time.Second}
 		}
 		srv := &tcp.Server{Handler: h}
 		go srv.Serve(ln)
@@ -465,7 +476,13 @@ func TestC12TCPEndToEnd(t *testing.T) {
 			t.Fatalf("dial: %v", err)
 		}
 		c.SetDeadline(time.Now().Add(5 * time.Second))
-		data, _ := io.ReadAll(c)
+		if handler == "sni" {
+			c.Write(sniHello("tcp.example.com"))
+		}
+		// read the reply (or EOF when the connection is refused), then hang up
+		data := make([]byte, len("hello-from-upstream"))
+		n, _ := io.ReadFull(c, data)
+		data = data[:n]
 		c.Close()
 		hx.Eval()
 		after := atomic.LoadInt64(&accepts)
@@ -688,4 +705,25 @@ func TestC12AuthFileHistory(t *testing.T) {
 			hx.Class("auth:file-rewritten")
 		}
 	})
+}
+
+
+type helloSink struct{ w bytes.Buffer }
+
+func (c *helloSink) Read(p []byte) (int, error)       { return 0, io.EOF }
+func (c *helloSink) Write(p []byte) (int, error)      { return c.w.Write(p) }
+func (c *helloSink) Close() error                     { return nil }
+func (c *helloSink) LocalAddr() net.Addr              { return &net.TCPAddr{} }
+func (c *helloSink) RemoteAddr() net.Addr             { return &net.TCPAddr{} }
+func (c *helloSink) SetDeadline(time.Time) error      { return nil }
+func (c *helloSink) SetReadDeadline(time.Time) error  { return nil }
+func (c *helloSink) SetWriteDeadline(time.Time) error { return nil }
+
+// sniHello returns a ClientHello record carrying the given server name.
+func sniHello(name string) []byte {
+	cc := &helloSink{}
+	tls.Client(cc, &tls.Config{ServerName: name, InsecureSkipVerify: true, CurvePreferences: []tls.CurveID{tls.X25519}}).Handshake()
+	b := cc.w.Bytes()
+	n := int(b[3])<<8 | int(b[4])
+	return append([]byte(nil), b[:5+n]...)
 }
